@@ -58,7 +58,7 @@ fn triples() -> u64 {
 fn plan(tier: Tier) -> Plan {
     match tier {
         Tier::Quick => Plan {
-            cases: pairs() + triples() + 40_000,
+            cases: pairs() + triples() + 300_000,
             time_cap_s: 40,
             case_timeout_s: 20,
             exhaustive: false,
